@@ -41,7 +41,105 @@ def copy_exact_rs(tier):
                 obs.append(Obligation(name, f, "rs-executor+replay", REFUTED if ex else UNDECIDED, 0.0,
                                       "merge applies arithmetic to the copied state (avg = %s)%s" % (got, "" if ex else "; no differing bit pattern found by replay"),
                                       cex={"class": {"case": case}, "replay": ex}))
+    obs += copy_exact_other_types()
     return obs
+
+
+def copy_exact_other_types():
+    """The same structural obligation for Covariance, define_moments! (N = 4, 6), WeightedMean and WeightedMeanWithError."""
+    import terms as tm
+    from terms import T, UINT, REAL
+    from common import Obligation, DISCHARGED, UNDECIDED, REFUTED
+    from executor import Crate, Exec, Ref, Arr, Struct
+    import moments_rs as mr
+    import c08
+    obs = []
+    n = T.sym("n", UINT)
+    Z = T.num(0, REAL)
+
+    def flat(st, out=None, pre=""):
+        out = {} if out is None else out
+        for k, v in st.items():
+            if isinstance(v, Struct):
+                flat(v, out, pre + k + ".")
+            elif isinstance(v, Arr):
+                for i, x in enumerate(v):
+                    out["%s%s[%d]" % (pre, k, i)] = x
+            else:
+                out[pre + k] = v
+        return out
+
+    units = []
+    crc = Crate()
+    crc.load_file("src/covariance.rs")
+    units.append(("Covariance", crc, "src/covariance.rs::<Covariance as Merge>::merge",
+                  lambda: crc.mk("Covariance", avg_x=T.sym("ax"), sum_x_2=T.sym("cxx"), avg_y=T.sym("ay"), sum_y_2=T.sym("cyy"), sum_prod=T.sym("cxy"), n=n),
+                  lambda: crc.mk("Covariance", avg_x=T.sym("ax0"), sum_x_2=Z, avg_y=T.sym("ay0"), sum_y_2=Z, sum_prod=Z, n=T.num(0, UINT)),
+                  [n.ge(1), n.lt(mr.NMAX)], lambda k: k not in ()))
+    for N in (4, 6):
+        crm, name = mr.load_moments_crate(N)
+        units.append((name, crm, "src/moments/mod.rs::define_moments!(_, %d)::merge" % N,
+                      (lambda crm=crm, name=name, N=N: crm.mk(name, n=n, avg=T.sym("avg"), m=Arr([T.sym("m%d" % p) for p in range(2, N + 1)]))),
+                      (lambda crm=crm, name=name, N=N: crm.mk(name, n=T.num(0, UINT), avg=T.sym("avg0"), m=Arr([Z for _ in range(2, N + 1)]))),
+                      [n.ge(1), n.lt(mr.NMAX)], lambda k: True))
+    crw = c08.load()
+    W = T.sym("W")
+    units.append(("WeightedMean", crw, c08.F + "::<WeightedMean as Merge>::merge",
+                  lambda: crw.mk("WeightedMean", weight_sum=W, weighted_avg=T.sym("wavg")),
+                  lambda: crw.mk("WeightedMean", weight_sum=Z, weighted_avg=T.sym("wavg0")),
+                  [W.gt(0)], lambda k: True))
+    for (ty, cr, f, full, empty, hyps, keep) in units:
+        for case, mk_self, mk_other in (("empty_left", empty, full), ("empty_right", full, empty)):
+            paths = Exec(cr).run(lambda: ({"self": mk_self(), "other": mk_other()}, list(hyps)),
+                                 lambda e, r: e.call(ty, "merge", r["self"], [Ref(r["other"])]))
+            want = flat(full())
+            ok = bool(paths) and all((not p.panic) and all(flat(p.state["self"])[k] == want[k] for k in want) for p in paths)
+            name = "C11.%s.merge_%s.pure_copy_no_arithmetic" % (ty, case)
+            if ok:
+                obs.append(Obligation(name, f, "rs-executor", DISCHARGED, 0.0, "post-state fields are the very terms of the non-empty operand",
+                                      text="term identity of every field after merge with an empty estimator"))
+            else:
+                diff = []
+                for p in paths:
+                    if not p.panic:
+                        got = flat(p.state["self"])
+                        diff = ["%s = %s" % (k, tm.show(got[k])[:60]) for k in want if got[k] != want[k]][:2]
+                ex = _bit_replay_other(ty)
+                obs.append(Obligation(name, f, "rs-executor+replay", REFUTED if ex else UNDECIDED, 0.0,
+                                      "merge applies arithmetic to the surviving state (%s)%s" % ("; ".join(diff), "" if ex else ": bit-for-bit identity is not established; no differing bit pattern found by replay"),
+                                      cex={"class": {"case": case}, "replay": ex}))
+    return obs
+
+
+def _bit_replay_other(ty):
+    import replay
+    pair = ty in ("Covariance", "WeightedMean", "WeightedMeanWithError")
+    rty = {"Moments4": "Moments4", "Moments6": "M6"}.get(ty, ty)
+    acc = {"Covariance": ["mean_x", "mean_y", "population_variance_x", "population_variance_y", "population_covariance"],
+           "WeightedMean": ["mean", "sum_weights"], "Moments4": ["mean", ["central_moment", 2], ["central_moment", 3], ["central_moment", 4]],
+           "Moments6": ["mean", ["central_moment", 2], ["central_moment", 5], ["central_moment", 6]]}.get(ty)
+    if acc is None:
+        return None
+    seqs = [[0.1, 0.1, 0.1], [0.1, 0.2, 0.4], [0.3, 0.7, 0.11, 0.13, 0.9], [1e308, 1e308]]
+    progs = []
+    for xs in seqs:
+        ops = [["add2", x, 0.3 + 0.1 * i] for i, x in enumerate(xs)] if pair else [["add", x] for x in xs]
+        progs.append({"type": rty, "ctor": ["new"], "ops": ops, "observe": acc})
+        progs.append({"type": rty, "ctor": ["new"], "ops": [["merge", {"type": rty, "ctor": ["new"], "ops": ops}]], "observe": acc})
+        progs.append({"type": rty, "ctor": ["new"], "ops": ops + [["merge", {"type": rty, "ctor": ["new"], "ops": []}]], "observe": acc})
+    res = replay.run_programs(progs)
+    key = lambda a: a if isinstance(a, str) else "%s(%s)" % (a[0], a[1])
+    for i in range(0, len(progs), 3):
+        base = res[i]["obs"]
+        for j in (1, 2):
+            for a in acc:
+                k = key(a)
+                u, v = base.get(k), res[i + j]["obs"].get(k)
+                if u is None or v is None:
+                    continue
+                if replay.bits(u) != replay.bits(v) and not (u != u and v != v):
+                    return {"program": progs[i + j], "statistic": k, "expected_bits_of": repr(u), "actual": repr(v)}
+    return None
 
 
 def _bit_replay(ty):
